@@ -168,6 +168,34 @@ def check_step(case, ctx):
             if q is not None:
                 ctx.le("dead-reckoning step = normalised first-order step q + dt/2 q (0,w) (each in its own convention)",
                        np.abs(q / np.linalg.norm(q) - ref).max(), 1e-14, {"got": q, "expected": ref, "x": float(np.linalg.norm(w) * dt)}, route=r)
+    # the step fed its own raw output, several times over (q = f(q, w, dt) in a loop, nothing re-normalised by the caller - EKF.f returns a vector
+    # off the unit sphere, and is linear): the direction after n steps is that of n first-order steps
+    nst = 3 + int(abs(float(w[1])) * 1e3) % 30
+    chain = {False: q0.copy(), True: q0.copy()}
+    for _ in range(nst):
+        chain[False] = rq.qnormalize(chain[False] + 0.5 * dt * rq.qmul(chain[False], np.r_[0.0, w]))
+        chain[True] = rq.qnormalize(chain[True] + 0.5 * dt * rq.qmul(np.r_[0.0, -w], chain[True]))
+    loops = {
+        "first-order/Madgwick.updateIMU": lambda q: F.Madgwick().updateIMU(q, w.copy(), z.copy(), dt=dt),
+        "first-order/Mahony.updateIMU": lambda q: F.Mahony().updateIMU(q, w.copy(), z.copy(), dt=dt),
+        "first-order/AQUA.updateIMU": lambda q: F.AQUA().updateIMU(q, w.copy(), z.copy(), dt=dt),
+        "first-order/EKF.f": lambda q: F.EKF().f(q, w.copy(), dt),
+        "first-order/ROLEQ.attitude_propagation": lambda q: F.ROLEQ().attitude_propagation(q, w.copy(), dt),
+        "first-order/AngularRate.series1": lambda q: F.AngularRate().update(q, w.copy(), method="series", order=1, dt=dt),
+    }
+    for r, step in loops.items():
+        def run_loop(step=step):
+            q = q0.copy()
+            for _ in range(nst):
+                q = step(q)
+            return np.asarray(q, float)
+        out = call(run_loop)
+        if ctx.returned(out, clause="no-exception[step fed its own raw output]", route=r):
+            q = as_real_array(ctx, out.value, (4,), route=r, what="quaternion")
+            if q is not None and np.linalg.norm(q) > 0:
+                ref_n = chain["AQUA" in r]
+                ctx.le("n steps fed their own raw output = n first-order steps (direction)", float(np.abs(q / np.linalg.norm(q) - ref_n).max()), 1e-14 * (nst + 5),
+                       {"n": nst, "got": q, "expected_direction": ref_n, "x": float(np.linalg.norm(w) * dt)}, route=r)
     if forms.integral(q0) and np.any(w):
         zi = np.zeros(3)
         for r, fn in (("first-order/Madgwick.updateIMU", lambda q, g: F.Madgwick().updateIMU(q, g, zi.copy(), dt=dt)),
